@@ -4,6 +4,7 @@ From Coba Require Import Common.Sx.
 From Coba Require C05.Run.
 From Coba Require C20.Run.
 From Coba Require C17.Run.
+From Coba Require C09.Run.
 Open Scope Z_scope.
 
 Definition dispatch (op : Z) (x : sx) : sx :=
@@ -11,5 +12,6 @@ Definition dispatch (op : Z) (x : sx) : sx :=
   | 5 => C05.Run.run x
   | 20 => C20.Run.run x
   | 17 => C17.Run.run x
+  | 9 => C09.Run.run x
   | _ => err 98
   end.
